@@ -416,6 +416,19 @@ func (w *gsWorld) exec(r *Run, line string) string {
 		} else {
 			obs = "ok"
 		}
+		if w.fep {
+			// the FEP downloader acts on ANY tip above its restart position, on its own clock: a tip left above
+			// lastProcessed+1 would be picked up at some moment between this op and the next ones (a race of the harness,
+			// seen once under load as a round that ran after a later `inject`). Until the next `poll` the L2 node shows
+			// no block above the restart position; the round for a higher tip is the next poll's.
+			lpb, err := w.p.GetLastProcessedBlock(ctx)
+			must(err)
+			w.cl.mu.Lock()
+			if w.cl.tip > lpb+1 {
+				w.cl.tip = lpb + 1
+			}
+			w.cl.mu.Unlock()
+		}
 		w.startDownloader()
 	case "restart":
 		w.stopDownloader()
